@@ -1,8 +1,147 @@
+import PyGam.Model.Stats
+import PyGam.Model.SolveMany
+import PyGam.Model.Exposure
 import PyGam.Drv.Common
 namespace PyGam.Drv.C08
-open PyGam PyGam.Drv
+open PyGam PyGam.Drv PyGam.Stats
+
+def famOf : String → Option Family
+  | "normal" => some .normal | "binomial" => some .binomial | "poisson" => some .poisson
+  | "gamma" => some .gamma | "inv_gauss" => some .invGauss | _ => none
+
+def splitBar (l : List String) : List (List String) :=
+  l.foldr (fun s acc => if s = "|" then [] :: acc else match acc with
+    | [] => [[s]]
+    | a :: rest => (s :: a) :: rest) [[]]
+
+def toMat (rows cols : Nat) (l : List Float) : Array (Array Float) :=
+  let a := l.toArray
+  (Array.range rows).map (fun i => (Array.range cols).map (fun j => a[i * cols + j]!))
+
+def showOpt : Option Float → String
+  | some x => showFloat x
+  | none => "none"
+
+def optFloat? (s : String) : Option (Option Float) :=
+  if s = "-" then some none else (parseFloat? s).map some
+
+def absF (x : Float) : Float := if x < 0 then 0 - x else x
+
+/-- `fit <fam> <link> <levels> <tau|-> <known scale|-> <n> <m> <loglik> <null loglik> <edof of the implementation>
+     | B (n*m) | A (m*m) | y | w | keep(0/1) | coef | mu`
+→ `<edof> | <scale> <AIC> <AICc> <GCV|none> <UBRE|none> <explained deviance> <McFadden> <McFadden_adj> <deviance>
+     | se (m) | cov (m*m)`
+`edof`, `se`, `cov` are `Stats.edofOf / seOf / covOf` on the solution `Bm` of `(WBᵀWB + A) Bm = WBᵀ` with the model
+PIRLS weights at the coefficients handed in; the scalar statistics are `Stats.scalars` at the handed-in
+`(y, mu, w, edof, ℓ, ℓ₀)`. -/
+def fitOp (fam link levels tau known n m ll ll0 edofI : String) (rest : List String) : Option String :=
+  match splitBar rest with
+  | [[], bs, as, ys, ws, ks, betas, mus] => do
+      let fam ← famOf fam
+      let link ← LinkKind.ofName? link
+      let levels ← parseFloat? levels
+      let tau ← optFloat? tau
+      let known ← optFloat? known
+      let n ← n.toNat?; let m ← m.toNat?
+      let ll ← parseFloat? ll; let ll0 ← parseFloat? ll0; let edofI ← parseFloat? edofI
+      let bl ← parseFloats? bs; let al ← parseFloats? as
+      let y ← parseFloats? ys; let w ← parseFloats? ws; let β ← parseFloats? betas; let mu ← parseFloats? mus
+      if bl.length ≠ n * m ∨ al.length ≠ m * m ∨ y.length ≠ n ∨ w.length ≠ n ∨ ks.length ≠ n ∨ β.length ≠ m
+          ∨ mu.length ≠ n then none else
+      let Bm := toMat n m bl
+      let Am := toMat m m al
+      let ya := y.toArray; let wa := w.toArray; let βa := β.toArray; let mua := mu.toArray
+      let ka : Array Bool := (ks.map (fun s => s == "1")).toArray
+      let B : Nat → Nat → Float := fun i j => Bm[i]![j]!
+      let A : Nat → Nat → Float := fun i j => Am[i]![j]!
+      let yf : Nat → Float := fun i => ya[i]!
+      let wf : Nat → Float := fun i => wa[i]!
+      let cfg : GlmCfg Float := { fam := fam, link := link, levels := levels, expectile := tau }
+      -- working weights at the handed-in coefficients (model PIRLS step)
+      let d := stepData cfg m B yf wf (fun i => ka[i]!) (fun j => βa[j]!)
+      let W2a := (Array.range n).map d.W2
+      let Wa := (Array.range n).map (fun r => workW cfg (wf r) (yf r) (d.mu r))
+      let N := normalMat n B d.keep (fun r => W2a[r]!) A
+      let WBf := weightedB B d.keep (fun r => Wa[r]!)
+      let WBa := (Array.range n).map (fun r => (Array.range m).map (fun j => WBf r j))
+      let Nm := (Array.range m).map (fun i => (Array.range m).map (fun j => N i j))
+      let rhs := (Array.range m).map (fun j => (Array.range n).map (fun r => WBa[r]![j]!))   -- WBᵀ
+      let X ← gaussSolveMany m n Nm rhs
+      let Xf : Nat → Nat → Float := fun j r => X[j]![r]!
+      let edofM := edofOf n m (fun r j => WBa[r]![j]!) Xf
+      let sc := scalars known fam levels n edofI wf yf (fun i => mua[i]!) (fun _ => ll) (fun _ => ll0)
+      let cov := covOf n sc.scale Xf
+      let cova := (Array.range m).map (fun i => (Array.range m).map (fun j => cov i j))
+      let se := (Array.range m).map (fun i => seOf (fun a b => cova[a]![b]!) i)
+      some (showFloat edofM ++ " | " ++
+        joinWith " " [showFloat sc.scale, showFloat sc.aic, showFloat sc.aicc, showOpt sc.gcv, showOpt sc.ubre,
+          showFloat sc.explained, showFloat sc.mcFadden, showFloat sc.mcFaddenAdj, showFloat sc.deviance]
+        ++ " | " ++ showFloatList se.toList ++ " | " ++ showFloatList (cova.toList.map Array.toList).flatten)
+  | _ => none
+
+/-- `eval <fam> <levels> <scale> <poissonGAM 0/1> <nq> | y | w | mu | mu0`
+→ `<score> <accuracy> <kernel(mu) - kernel(mu0)> | deviance residuals (unscaled) | deviance residuals (scaled)` -/
+def evalOp (fam levels scale pg nq : String) (rest : List String) : Option String :=
+  match splitBar rest with
+  | [[], ys, ws, mus, mu0s] => do
+      let fam ← famOf fam
+      let levels ← parseFloat? levels
+      let scale ← parseFloat? scale
+      let nq ← nq.toNat?
+      let pg ← (if pg = "1" then some true else if pg = "0" then some false else none)
+      let y ← parseFloats? ys; let w ← parseFloats? ws; let mu ← parseFloats? mus; let mu0 ← parseFloats? mu0s
+      if y.length ≠ nq ∨ w.length ≠ nq ∨ mu.length ≠ nq ∨ mu0.length ≠ nq then none else
+      let ya := y.toArray; let wa := w.toArray; let mua := mu.toArray; let mu0a := mu0.toArray
+      let yf : Nat → Float := fun i => ya[i]!
+      let wf : Nat → Float := fun i => wa[i]!
+      let muf : Nat → Float := fun i => mua[i]!
+      let score := r2Explained fam levels scale nq wf yf muf
+      let acc := accuracy nq yf muf
+      let yk : Nat → Float := if pg then rescaleY Exposure.roundHalfEvenF wf yf else yf
+      let kd := logKernelSum fam levels scale nq wf yk muf - logKernelSum fam levels scale nq wf yk (fun i => mu0a[i]!)
+      let r0 := (List.range nq).map (fun i => devResid fam levels scale false (wf i) (yf i) (muf i))
+      let r1 := (List.range nq).map (fun i => devResid fam levels scale true (wf i) (yf i) (muf i))
+      some (showFloatList [score, acc, kd] ++ " | " ++ showFloatList r0 ++ " | " ++ showFloatList r1)
+  | _ => none
+
+/-- `wald <spline 0/1> <known 0/1> <k> <rank> <n> <edof> | P (k*k) | c (k)`
+→ `<score> <first cdf argument> <second cdf argument> <Σ|c_i||P_ij||c_j|>` -/
+def waldOp (sp known k rank n edof : String) (rest : List String) : Option String :=
+  match splitBar rest with
+  | [[], ps, cs] => do
+      let sp ← (if sp = "1" then some true else if sp = "0" then some false else none)
+      let known ← (if known = "1" then some true else if known = "0" then some false else none)
+      let k ← k.toNat?; let rank ← rank.toNat?; let n ← n.toNat?
+      let edof ← parseFloat? edof
+      let pl ← parseFloats? ps; let c ← parseFloats? cs
+      if pl.length ≠ k * k ∨ c.length ≠ k then none else
+      let Pm := toMat k k pl
+      let ca := c.toArray
+      let cc := waldCoef sp k (fun i => ca[i]!)
+      let cca := (Array.range k).map cc
+      let score := waldStat k (fun i j => Pm[i]![j]!) (fun i => cca[i]!)
+      let mag := waldStat k (fun i j => absF (Pm[i]![j]!)) (fun i => absF (cca[i]!))
+      let a := cdfArgs known score rank n edof
+      some (showFloatList [score, a.1, a.2, mag])
+  | _ => none
+
+/-- `acc <n> | y | mu` → `LogisticGAM.accuracy(y=…, mu=…)` -/
+def accOp (n : String) (rest : List String) : Option String :=
+  match splitBar rest with
+  | [[], ys, mus] => do
+      let n ← n.toNat?
+      let y ← parseFloats? ys; let mu ← parseFloats? mus
+      if y.length ≠ n ∨ mu.length ≠ n then none else
+      let ya := y.toArray; let mua := mu.toArray
+      some (showFloat (accuracy n (fun i => ya[i]!) (fun i => mua[i]!)))
+  | _ => none
 
 /-- operations of the C08 model driver (`C08 <op> <args…>`); `none` ↦ `bad-op` -/
 def handle : List String → Option String
+  | "fit" :: fam :: link :: levels :: tau :: known :: n :: m :: ll :: ll0 :: edofI :: rest =>
+      fitOp fam link levels tau known n m ll ll0 edofI rest
+  | "eval" :: fam :: levels :: scale :: pg :: nq :: rest => evalOp fam levels scale pg nq rest
+  | "wald" :: sp :: known :: k :: rank :: n :: edof :: rest => waldOp sp known k rank n edof rest
+  | "acc" :: n :: rest => accOp n rest
   | _ => none
 end PyGam.Drv.C08
